@@ -77,6 +77,16 @@ Proof.
 Qed.
 Print Assumptions C04_nested_sources_distinct.
 
+(* ... stated as rejections: a name bound by the embedding prefix that is also bound by the route's own pattern, reserved,
+   or a resource of ANY level (outer application, embedded application, route) makes the nested construction fail *)
+Theorem C04_nested_prefix_conflict_rejected :
+  forall o a n,
+  In n (o_prefix_url o) ->
+  (In n (a_route_url a) \/ In n RESERVED_ARGS \/ In n (o_resources o) \/ In n (a_resources a) \/ In n (a_route_resources a)) ->
+  forall r, build_nested o a <> Ok r.
+Proof. exact nested_prefix_conflict_rejected. Qed.
+Print Assumptions C04_nested_prefix_conflict_rejected.
+
 (* obligation on the source: the control-flow skeletons of check_middleware and check_middlewares, regenerated from the source on every run.  The model is a
    hand transcription of exactly these statements: any edit re-opens the correspondence question (the check then searches
    for a failing input and reports what it finds) *)
